@@ -261,6 +261,9 @@ package redisemu
 //@ modifies heap ghost.mutated ghost.bumped ghost.removedKey ghost.lookupAbsent ghost.now
 //@ ensures [C10] ver.mut: (mutated && !old(mutated)) ==> bumped || removedKey
 //@ ensures [C19] dirty.mut: (mutated && !old(mutated)) ==> dds.data.dirty
+// COPY: the destination holds the new object, the source keeps its binding
+//@ ensures [C06] copied.in: newSk != nil ==> dds.data.vdom[destKeyName] && istype(dds.data.vval[destKeyName], *storeKey) && unbox(dds.data.vval[destKeyName], *storeKey) == newSk
+//@ ensures [C06] copied.src: newSk != nil && (ds.data != dds.data || srcKeyName != destKeyName) ==> ds.data.vdom[srcKeyName] == old(ds.data.vdom[srcKeyName]) && ds.data.vval[srcKeyName] == old(ds.data.vval[srcKeyName])
 
 //@ func dataStore.moveStoreKeyUnlocked
 //@ prop C08 C16 C10
@@ -271,6 +274,10 @@ package redisemu
 //@ modifies heap ghost.mutated ghost.bumped ghost.removedKey ghost.lookupAbsent ghost.now
 //@ ensures [C10] ver.mut: (mutated && !old(mutated)) ==> bumped
 //@ ensures [C19] dirty.mut: (mutated && !old(mutated)) ==> dds.data.dirty
+// RENAME/MOVE: the key object ends up under the destination name (also when source and destination coincide) and, if the two differ, is gone from the source
+//@ ensures [C06] moved.in: newSk != nil ==> dds.data.vdom[destKeyName] && istype(dds.data.vval[destKeyName], *storeKey) && unbox(dds.data.vval[destKeyName], *storeKey) == newSk
+//@ ensures [C06] moved.out: newSk != nil && (ds.data != dds.data || srcKeyName != destKeyName) ==> !ds.data.vdom[srcKeyName]
+//@ ensures [C06] refused: newSk == nil ==> ds.data.vdom == old(ds.data.vdom) && dds.data.vdom == old(dds.data.vdom)
 
 //@ func dataStore.newStoreKeyUnlocked
 //@ prop C08 C06
